@@ -33,6 +33,10 @@ CHECKS = {
    text="TLC checks Middleware.tla (stack machine of the chain) for every chain up to length 4 over {pass, modReq, modRes, short, fail}: exactly-once, onion order, nothing inside a stopper runs, the stopper's value is the answer, termination; every finished state is a chain with its expected event sequence and answer, built from instrumented middlewares on real Streamable-HTTP (JSON and SSE answers) and legacy SSE servers in both option forms with overlapped requests; recorded per-request event sequences, answers, per-stage context/session and the absence of notifications in the chain are compared with the model; the event logs are validated by TLC against TraceMiddleware.",
    note="Trusted: TLC, the instrumented middlewares/handler (harness code with fixed behaviours), the raw peer. Only tools/call requests are driven through non-pass behaviours (initialize and list requests pass through untouched).",
    technique="TLA+ model checking (TLC) + exhaustive chain replay on real servers + TLC trace validation"),
+ "C16": dict(level="model_checking", design="DESIGN.md §5 C16",
+   text="TLC checks Handshake.tla (version selection, capability derivation at initialize time, client state machine); the server graph (7 version classes x registration states, incl. register-then-reinitialize) is covered on Streamable (stateful/stateless), legacy SSE and stdio servers by raw peers; the client graph (Initialize with 5 scripted outcomes, 7 operations, Close) is covered and randomly walked on the Streamable, legacy SSE and stdio clients against a recording scripted server / scripted child process, comparing error class, GetState() and requests on the wire per step; walk logs are validated by TLC against TraceHandshake.",
+   note="Trusted: TLC, the scripted recording server and the scripted stdio child (this binary re-executed). The transient 'connected' state and Initialize-after-Close are not driven.",
+   technique="TLA+ model checking (TLC) + edge-cover walks on real servers and clients + TLC trace validation"),
 }
 NA = {
  "C20": "data-race freedom is a statement about individual memory accesses under the Go memory model; an abstract state-machine specification has no notion of them (see DESIGN.md §6)",
